@@ -17,7 +17,9 @@ EXTRA = ["program progMain\n  integer :: ivA(3), eqA, eqB\n  common /cmnBlk/ cmA
 def check_one(arg):
     std, seed, v = arg
     import fp
-    if seed < 0:
+    if isinstance(seed, str):
+        src = seed            # a catalogue entry (whatever parses must satisfy the invariants)
+    elif seed < 0:
         src = EXTRA[-seed - 1]
     else:
         st, _ = gen.gen_program(seed, std, size=0.6)
@@ -56,6 +58,9 @@ def run(ctx):
     corr = engine_corr.corr_cases(cc)
     jobs = [(("f2003", "f2008")[k % 2], ctx.seed * 103 + k // 2, k % 4) for k in range(ctx.n(120, 4000))]
     jobs += [(std, -1, v) for std in ("f2003", "f2008") for v in (0, 1)]
+    import catalogue
+    cat = catalogue.sources()
+    jobs += [(("f2003", "f2008")[k % 2], src, 0) for k, src in enumerate(cat if not ctx.quick else cat[ctx.seed % 3::3])]
     failures = []
     for job, (st, r) in zip(jobs, pool.pmap(check_one, jobs, chunksize=6)):
         if st != "ok":
@@ -63,7 +68,7 @@ def run(ctx):
         else:
             failures += [(s, d, dict(rep, job=list(job))) for s, d, rep in r]
     e2e = dict(cases=len(jobs), distinct=len(set(jobs)), failures=failures,
-               rule="every node of the trees of generated programs (both standards, comments dropped/kept/directives) "
+               rule="every node of the trees of a catalogue of ~300 less usual statement forms in five unit wrappers, of generated programs (both standards, comments dropped/kept/directives) "
                     "and of the re-parse of their regenerated source, plus a program with COMMON/DIMENSION/"
                     "EQUIVALENCE/NAMELIST/implied-DO/non-block DO (nested containers and back-tracking): each node "
                     "object once; parent == the node in whose children (nested tuples/lists included) it appears; "
